@@ -1281,7 +1281,12 @@ impl App {
             bail!("block hash is empty; this should not occur")
         };
         // If there is not a matching cached executed proposal, we need to execute the block.
-        let skip_execution = self.execution_state.check_if_executed_block(block_hash);
+        //
+        // The cached results live in `self.state`, which a previous `FinalizeBlock` for this block
+        // has already consumed to prepare the write batch. CometBFT sends `FinalizeBlock` for the
+        // same block again if it restarts before `Commit`; execute the block again in that case.
+        let skip_execution = self.execution_state.check_if_executed_block(block_hash)
+            && self.write_batch.is_none();
         if !skip_execution {
             // clear out state before execution.
             self.update_state_for_new_round(&storage);
